@@ -118,7 +118,11 @@ MUTANTS = [
     ('C05', 'rule-options-shared-again', [R('lark/load_grammar.py', '                    exp_options = copy(options)\n\n                for sym in expansion:', '                    exp_options = options\n\n                for sym in expansion:')]),
     ('C11', 'terminal-priority-not-serialised', [R('lark/lexer.py', "__serialize_fields__ = 'name', 'pattern', 'priority'", "__serialize_fields__ = 'name', 'pattern'")]),
     ('C11', 'empty-indices-not-serialised', [R('lark/grammar.py', "__serialize_fields__ = 'keep_all_tokens', 'expand1', 'priority', 'template_source', 'empty_indices'", "__serialize_fields__ = 'keep_all_tokens', 'expand1', 'priority', 'template_source'")]),
-    ('C11', 'use-bytes-not-restored-at-load', [R('lark/lark.py', '        lexer_conf.use_bytes = options.use_bytes\n', '')]),
+    ('C11', 'lexer-callbacks-dropped-at-load', [R('lark/lark.py', '        lexer_conf.callbacks = options.lexer_callbacks or {}\n', '        lexer_conf.callbacks = {}\n')]),
+    ('C11', 'postlex-dropped-at-load', [R('lark/lark.py', '        lexer_conf.postlex = options.postlex\n', '        lexer_conf.postlex = None\n')]),
+    ('C11', 'load-time-options-ignored', [R('lark/lark.py', '        options.update(kwargs)\n        self.options = LarkOptions.deserialize(options, memo)', '        self.options = LarkOptions.deserialize(options, memo)')]),
+    ('C11', 'terminal-priority-reset-on-load', [R('lark/lexer.py', "    def __repr__(self):\n        return '%s(%r, %r)' % (type(self).__name__, self.name, self.pattern)", "    def _deserialize(self):\n        self.priority = 0\n\n    def __repr__(self):\n        return '%s(%r, %r)' % (type(self).__name__, self.name, self.pattern)")]),
+    ('C11', 'regex-flags-lost-in-standalone-data', [R('lark/lexer.py', "    def _get_flags(self, value):\n        for f in self.flags:", "    def _get_flags(self, value):\n        for f in (self.flags if isinstance(self.flags, frozenset) else ()):")]),
     ('C11', 'pattern-flags-not-serialised', [R('lark/lexer.py', "__serialize_fields__ = 'value', 'flags', 'raw'", "__serialize_fields__ = 'value', 'raw'")]),
 ]
 
